@@ -15,10 +15,24 @@ ANCHORS = ['ExpandCallEmulator::push']
 RESET = {'clear', 'init', 'assign', 'reset', 'operator='}
 
 
-def swapped_fields(unit, push_fn):
-    """fields F with std::swap(newFrame->F, top.F) in push(top)"""
-    top = push_fn.params[0]['d'] if push_fn.params else None
+def swapped_fields(unit, push_fn, top=None, depth=0):
+    """fields F with std::swap(newFrame->F, top.F) in push(top), directly or in a helper that push hands `top` to"""
+    if top is None:
+        top = push_fn.params[0]['d'] if push_fn.params else None
     out = []
+    if depth < 2:
+        for c in push_fn.calls():
+            if c.get('q') == 'std::swap' or not c.get('inrepo'):
+                continue
+            g = unit.by_decl.get(c.get('cd'))
+            if g is None or g.body is None or g is push_fn:
+                continue
+            for i, a in enumerate(c.get('args') or []):
+                sa = strip(a)
+                if sa is not None and sa['k'] == 'DeclRefExpr' and sa.get('d') == top and i < len(g.params):
+                    for f in swapped_fields(unit, g, g.params[i]['d'], depth + 1):
+                        if f not in out:
+                            out.append(f)
     for c in push_fn.calls():
         if c.get('q') == 'std::swap' and len(c.get('args', [])) == 2:
             a, b = strip(c['args'][0]), strip(c['args'][1])
